@@ -291,7 +291,14 @@ func runProgram(t *testing.T, tr *vh.Trace, tid string, stackName string, prog [
 
 		switch c.Op {
 		case "create":
-			r := vh.NewRes(key, vh.Obj{Spec: 1, Phase: "running", Labels: [][2]string{{"base", "1"}}, Fins: []string{"basefin"}})
+			// one or three finalizers: a set of three built by appends has spare capacity in its backing array (the hazard of
+			// appending in place to a slice that copies of the metadata share)
+			fins := []string{"basefin"}
+			if mutN%2 == 1 {
+				fins = []string{"basefin", "f2", "f3"}
+			}
+
+			r := vh.NewRes(key, vh.Obj{Spec: 1, Phase: "running", Labels: [][2]string{{"base", "1"}}, Fins: fins})
 			r.Metadata().Annotations().Set("base", "1")
 
 			if err := s.st.Create(ctx, r); err == nil {
@@ -391,6 +398,53 @@ func runProgram(t *testing.T, tr *vh.Trace, tid string, stackName string, prog [
 			}
 
 			log("api", c)
+		case "twinadd", "twinremadd":
+			// two holders of one lineage (two reads, or a read and a struct copy of its metadata) each add a finalizer of their
+			// own; "twinremadd": the first holder removed one before the copy was taken (a slice with spare capacity).
+			// Logged as the primitive steps it consists of.
+			g := c.G
+			if g == c.H {
+				g = c.H%4 + 1
+			}
+
+			r1, err1 := s.get(ctx, key.Pointer())
+			if err1 == nil {
+				hs[c.H] = held{res: r1}
+			}
+
+			log("api", Cmd{Op: "get", H: c.H, G: c.H, Field: c.Field, K: c.K})
+
+			if err1 != nil {
+				break
+			}
+
+			if c.Op == "twinremadd" {
+				mutate(r1.Metadata(), r1, "finRemove")
+				log("mutate", Cmd{Op: "mutate", H: c.H, G: c.H, Field: "finRemove", K: c.K})
+
+				md := *r1.Metadata()
+				hs[g] = held{md: &md}
+
+				log("api", Cmd{Op: "mdcopy", H: c.H, G: g, Field: c.Field, K: c.K})
+			} else {
+				if r2, err2 := s.get(ctx, key.Pointer()); err2 == nil {
+					hs[g] = held{res: r2}
+				}
+
+				log("api", Cmd{Op: "get", H: g, G: g, Field: c.Field, K: c.K})
+			}
+
+			for _, h := range []int{c.H, g} {
+				if cur, ok := hs[h]; ok {
+					if cur.res != nil {
+						mutate(cur.res.Metadata(), cur.res, "finAdd")
+					} else if cur.md != nil {
+						mutate(cur.md, nil, "finAdd")
+					}
+
+					log("mutate", Cmd{Op: "mutate", H: h, G: h, Field: "finAdd", K: c.K})
+				}
+			}
 		case "mutate":
 			if cur, ok := hs[c.H]; ok {
 				if cur.res != nil {
